@@ -100,10 +100,13 @@ theorem c06_grammar_fill_roundtrip (fh : FileHeader) (d : ModelData) (h : modelD
   parseModelData_encF fh d h fs hfs rest
 
 /-- On a whole file with filled declaration blocks the reader's two header parses return the same
-layout as on the zero-filled file, and leave the same geometry sections.  (The geometry stage reads
-the file at absolute offsets behind the runtime block, which `encodeMdlF` does not change; that
-`fromExisting (encodeMdlF m fs)` reports `view m` is checked by correspondence — family `declfill`
-— with the executable model evaluated on the filled file, not proved.) -/
+layout as on the zero-filled file, and leave the same geometry sections, at the same offsets (the
+length of the file is unchanged).  The geometry stage reads the file at absolute offsets behind
+the runtime block, which `encodeMdlF` does not change: the whole-file statement — that
+`fromExisting (encodeMdlF m fs)` returns the same `MDL` as on the zero-filled file — is
+`c06_parse_fill_partial` in the section "the whole file" below (proved, as an instance of
+`c06_parse_any_file_partial`; the correspondence family `declfill` additionally runs the
+executable model and the code on filled files). -/
 theorem c06_headers_of_fill (m : AbstractModel) (h : WF m = true) (fs : List DeclFill)
     (hfs : declFillsOk (modelData m).decls fs = true) :
     parseFileHeader (encodeMdlF m fs) =
@@ -207,6 +210,83 @@ def sampleModel : AbstractModel :=
 /-- non-vacuity of `c06_parse_encode_partial`: the hypotheses hold on `sampleModel` -/
 example : WF sampleModel = true ∧ noWeightsByte4 sampleModel = true ∧ (view sampleModel).isSome = true := by
   decide +kernel
+
+/-! ### every file with the same layout; declaration blocks with arbitrary don't-care bytes
+
+The geometry stage uses two facts about the bytes of the file and nothing else
+(`Proofs/MdlGeometry.lean`, `SameLayout m file`): the two header parses return `fileHeader m` and
+`modelData m`, and the sections of `m` lie in `file` from `dataStart m` on.  The whole-file theorem
+is therefore proved for every such file; `encodeMdl m` (`sameLayout_encode`) and `encodeMdlF m fs`
+(`sameLayout_fill`) are instances, and so is either of them followed by arbitrary bytes
+(`sameLayout_fill_append`). -/
+
+/-- **Parsing any file with the layout of `m` reports exactly the stored geometry of `m`**: if the
+reader's header stage on `file` returns the file header and the runtime tables of `m`, and the
+geometry sections of `m` occupy `file` from `dataStart m` on (`SameLayout m file` — nothing else is
+assumed about `file`: not the bytes the header stage ignores, not what follows the sections, not
+the length), then `MDL::from_existing` (model) returns what `c06_parse_encode_partial` states for
+`encodeMdl m`.  "partial" refers only to the excluded class of the recorded finding
+`c06.blendweights-byte4` (meshes with vertices that declare (BlendWeights, Byte4),
+`noWeightsByte4`), exactly as for `c06_parse_encode_partial`; the full statement is the same
+without `hw`, and fails on that class (`c06_blendweights_byte4_witness`). -/
+theorem c06_parse_any_file_partial (m : AbstractModel) (file : Bytes) (hl : SameLayout m file)
+    (h : WF m = true) (hw : noWeightsByte4 m = true) (v : View) (hv : view m = some v) :
+    fromExisting file =
+      .ok { fileHeader := fileHeader m, modelData := modelData m, lods := v.lods,
+            affectedBoneNames := v.affectedBoneNames, materialNames := v.materialNames } :=
+  hl.parse h hw v hv
+
+/-- `c06_parse_encode_partial` is the instance `file = encodeMdl m` -/
+theorem c06_any_file_generalises (m : AbstractModel) (h : WF m = true) :
+    SameLayout m (encodeMdl m) :=
+  sameLayout_encode m h
+
+/-- a filler for the one declaration block of `sampleModel` (three elements): 0xFF in the padding
+bytes, marker slot offset 9 / type 17 / usage 7 / index 0xFF, and 0xFF / invalid enum bytes
+(0x12 as a type, 0x08 as a usage) in the thirteen slots behind the marker -/
+def sampleFill : DeclFill :=
+  { pads := [(0xFF, 0xFF, 0xFF), (1, 2, 3), (0xFF, 0, 0x80)], mkOffset := 9, mkType := 17, mkUsage := 7,
+    mkIndex := 0xFF, mkPad := (0xFF, 0, 0xFF),
+    tail := (List.replicate 13 [0xFF, 0xFF, 0x12, 0x08, 0xFF, 0xFF, 0x00, 0xFF]).flatten }
+
+/-- non-vacuity of `c06_parse_any_file_partial`: the hypotheses hold on `sampleModel` and a file
+that is neither `encodeMdl sampleModel` nor `encodeMdlF sampleModel _` — filled declaration block
+and two bytes behind the last section -/
+example : SameLayout sampleModel (encodeMdlF sampleModel [sampleFill] ++ [0xDE, 0xAD]) ∧
+    (WF sampleModel = true ∧ noWeightsByte4 sampleModel = true ∧ (view sampleModel).isSome = true) :=
+  ⟨sameLayout_fill_append sampleModel (by decide +kernel) [sampleFill] (by decide +kernel) _,
+    by decide +kernel⟩
+
+/-- **Parsing reports the stored geometry whatever the don't-care bytes of the declaration blocks
+hold**: for every well-formed model and every filler `fs` of its declaration blocks (padding bytes
+of the elements, the other fields of the end-marker slot — type and usage enum discriminants, as
+the format requires of a slot that is decoded —, every slot behind the marker), the file
+`encodeMdlF m fs` is read to the same `MDL` as the zero-filled `encodeMdl m`: same file header and
+runtime tables, same vertices, indices, sub-meshes, shapes, raw streams, names.  "partial" refers
+only to the excluded (BlendWeights, Byte4) class of finding `c06.blendweights-byte4`, as for
+`c06_parse_encode_partial`. -/
+theorem c06_parse_fill_partial (m : AbstractModel) (h : WF m = true)
+    (hw : noWeightsByte4 m = true) (fs : List DeclFill)
+    (hfs : declFillsOk (modelData m).decls fs = true) (v : View) (hv : view m = some v) :
+    fromExisting (encodeMdlF m fs) =
+      .ok { fileHeader := fileHeader m, modelData := modelData m, lods := v.lods,
+            affectedBoneNames := v.affectedBoneNames, materialNames := v.materialNames } :=
+  c06_parse_any_file_partial m _ (sameLayout_fill m h fs hfs) h hw v hv
+
+/-- non-vacuity of `c06_parse_fill_partial`: the hypotheses hold on `sampleModel` with
+`sampleFill`, and the filled file differs from the zero-filled one -/
+example : WF sampleModel = true ∧ noWeightsByte4 sampleModel = true ∧
+    declFillsOk (modelData sampleModel).decls [sampleFill] = true ∧
+    (view sampleModel).isSome = true ∧
+    encodeMdlF sampleModel [sampleFill] ≠ encodeMdl sampleModel := by
+  decide +kernel
+
+/-- `encodeMdlF` generalises `encodeMdl`: the zero fillers are admissible and give the same file,
+so `c06_parse_encode_partial` is the instance `fs = decls.map DeclFill.zero` -/
+theorem c06_fill_generalises (m : AbstractModel) :
+    encodeMdlF m ((modelData m).decls.map DeclFill.zero) = encodeMdl m ∧
+      declFillsOk (modelData m).decls ((modelData m).decls.map DeclFill.zero) = true :=
+  encodeMdlF_zero m
 
 /-- the finding, on one element: the byte 128 under (BlendWeights, Byte4) is reported as
 `2·128/255 − 1` by the code's switch, not as the byte value 128 -/
